@@ -4,5 +4,6 @@
 MD=$1; TO=$2; shift 2
 HERE=$(cd "$(dirname "$0")/.." && pwd)
 export JAVA_TOOL_OPTIONS="-Xss512m -Xmx${VERIF_TLC_XMX:-6g} -DTLA-Library=$HERE/spec/lib:$HERE/spec ${VERIF_TLC_JOPTS:-}"
+export VERIF_DEBUG=${VERIF_DEBUG:-0}
 mkdir -p "$MD"
 exec timeout "$TO" tlc -noGenerateSpecTE -metadir "$MD/states" "$@"
